@@ -43,6 +43,8 @@ pub struct Registry {
     /// builder O: I/O mode (PHY command encoders, phyio.rs): `Result`-returning functions become actions of
     /// `Rt.Phy.IoM`
     pub io: std::cell::RefCell<crate::phyio::IoCtx>,
+    /// builder N: "Enum::Variant" -> field names of a struct-like variant (types are in `enum_data`)
+    pub enum_named: HashMap<String, Vec<String>>,
 }
 
 pub fn int_ty(name: &str) -> Option<&'static str> {
@@ -107,6 +109,9 @@ pub fn lean_ident(s: &str) -> String {
     const KW: &[&str] = &["from", "at", "end", "then", "do", "fun", "in", "open", "show", "have", "with", "type", "instance", "local", "section", "variable", "Type", "mut"];
     if KW.contains(&s) {
         format!("«{}»", s)
+    } else if !s.is_empty() && s.chars().all(|c| c.is_ascii_digit()) {
+        // builder N: the field of a newtype (`self.0`)
+        format!("_{}", s)
     } else {
         s.to_string()
     }
@@ -129,7 +134,9 @@ impl<'a> FnTr<'a> {
                 }
                 if tp.path.segments.len() == 1 {
                     if let Some(t) = self.tparams.get(&name) {
-                        return Ok(t.clone());
+                        if !matches!(t, Ty::Int(_)) {
+                            return Ok(t.clone());
+                        }
                     }
                 }
                 // builder L: `heapless::Vec<T, CAP>` — a list with a capacity
@@ -142,7 +149,11 @@ impl<'a> FnTr<'a> {
                                 let cap = match args[1] {
                                     GenericArgument::Type(Type::Path(cp)) => {
                                         let cn = cp.path.segments.last().unwrap().ident.to_string();
-                                        self.reg.consts.get(&cn).map(|(_, l)| l.clone()).ok_or(format!("Vec capacity {} is not a known constant", cn))?
+                                        if matches!(self.tparams.get(&cn), Some(Ty::Int(_))) {
+                                            cn.clone()
+                                        } else {
+                                            self.reg.consts.get(&cn).map(|(_, l)| l.clone()).ok_or(format!("Vec capacity {} is not a known constant", cn))?
+                                        }
                                     }
                                     GenericArgument::Const(Expr::Lit(ExprLit { lit: Lit::Int(i), .. })) => i.base10_digits().to_string(),
                                     _ => return Err("unsupported Vec capacity".into()),
@@ -182,8 +193,32 @@ impl<'a> FnTr<'a> {
                 if let Some(a) = self.reg.aliases.get(&name) {
                     return Ok(a.clone());
                 }
+                // builder N: `Result<T, E>` whose error value is never inspected: `Ok(x)` = `some x`,
+                // `Err(_)` = `none` (a pattern that binds the error does not translate)
+                if name == "Result" {
+                    if let PathArguments::AngleBracketed(ab) = &last.arguments {
+                        if let Some(GenericArgument::Type(inner)) = ab.args.first() {
+                            return Ok(Ty::Opt(Box::new(self.ty(inner)?)));
+                        }
+                    }
+                    return Err("bad Result".into());
+                }
                 if self.reg.enums.contains_key(&name) || self.reg.structs.contains_key(&name) {
                     return Ok(Ty::Named(name));
+                }
+                // builder N: a `type NAME = T;` of the unit's files
+                if tp.path.segments.len() == 1 {
+                    if let Some(files) = self.reg.files.clone() {
+                        for f in files.iter() {
+                            for it in &f.items {
+                                if let Item::Type(ta) = it {
+                                    if ta.ident == name && ta.generics.params.is_empty() {
+                                        return self.ty(&ta.ty);
+                                    }
+                                }
+                            }
+                        }
+                    }
                 }
                 Err(format!("unknown type {}", name))
             }
@@ -262,6 +297,32 @@ impl<'a> FnTr<'a> {
                             let seq = self.block_tail(&rest, env)?;
                             st.extend(seq.stmts);
                             return Ok(Seq { stmts: st, tail: seq.tail });
+                        }
+                    }
+                    // builder N: `let PAT = match e { P1 => v, P2 => return r, .. };` — the arms that yield a value
+                    // are continued by the rest of the block, the others leave the function
+                    if init.diverge.is_none() && !self.muts.is_empty() {
+                        if let Expr::Match(m) = &*init.expr {
+                            if contains_return(&init.expr) {
+                                let pat = &l.pat;
+                                let rest = &stmts[i + 1..];
+                                let mut m2 = m.clone();
+                                for arm in m2.arms.iter_mut() {
+                                    let leaves = matches!(&*arm.body, Expr::Return(_)) || matches!(&*arm.body, Expr::Block(b) if block_returns(&b.block));
+                                    if !leaves {
+                                        if contains_return(&arm.body) {
+                                            return Err("let = match: an arm both yields a value and returns".into());
+                                        }
+                                        let body = &arm.body;
+                                        let nb: Expr = parse_quote!({ let #pat = #body; #(#rest)* });
+                                        arm.body = Box::new(nb);
+                                    }
+                                }
+                                let stmt = Stmt::Expr(Expr::Match(m2), Some(Default::default()));
+                                let seq = self.block_tail(&[stmt], env)?;
+                                st.extend(seq.stmts);
+                                return Ok(Seq { stmts: st, tail: seq.tail });
+                            }
                         }
                     }
                     if let Some((_, else_blk)) = &init.diverge {
@@ -415,6 +476,23 @@ impl<'a> FnTr<'a> {
                             let rest = self.block_tail(&stmts[i + 1..], env)?;
                             return Ok(Seq { stmts: st, tail: Tail::If(c, Box::new(then_seq), Box::new(rest)) });
                         }
+                        // builder N: assignment through an index, `place[i] = v` (out of bounds: a panic)
+                        Expr::Assign(a) if matches!(&*a.left, Expr::Index(_)) => {
+                            let ix = match &*a.left {
+                                Expr::Index(ix) => ix,
+                                _ => unreachable!(),
+                            };
+                            let (root, fields, pty) = self.place(&ix.expr, env)?;
+                            let el = match &pty {
+                                Ty::Arr(el) => (**el).clone(),
+                                _ => return Err("index assignment on a non-array".into()),
+                            };
+                            let (base, _) = self.ex(&ix.expr, env, &mut st, None)?;
+                            let (i, _) = self.ex(&ix.index, env, &mut st, Some(Ty::Int("usize")))?;
+                            let (v, _) = self.ex(&a.right, env, &mut st, Some(el))?;
+                            let t = self.act(&mut st, format!("Rt.setIdx {} {} {}", paren(&base), paren(&i), paren(&v)));
+                            st.push((lean_ident(&root), Rhs::Pure(update_term(&lean_ident(&root), &fields, &t))));
+                        }
                         // builder L: assignment to a field (chain) of a variable / through a `&mut` parameter
                         Expr::Assign(a) if !matches!(&*a.left, Expr::Path(_)) => {
                             let (root, fields, pty) = self.place(&a.left, env)?;
@@ -512,6 +590,9 @@ impl<'a> FnTr<'a> {
                             if ["trace", "debug", "info", "warn", "error", "debug_assert"].contains(&name.as_str()) {
                                 continue;
                             }
+                            if ["unreachable", "panic", "unimplemented", "todo"].contains(&name.as_str()) {
+                                return Ok(Seq { stmts: st, tail: Tail::Panic });
+                            }
                             return Err(format!("unsupported macro {}", name));
                         }
                         _ => return Err(format!("unsupported statement: {}", quote::quote!(#e))),
@@ -596,6 +677,8 @@ impl<'a> FnTr<'a> {
                 crate::phyio::retarget(&mut s, tuple)?;
                 Ok(s)
             }
+            // builder N: a branch that panics
+            Tail::Panic => Ok(s),
             _ => Err("a branch of a statement-level if/match leaves the function or has a value".into()),
         }
     }
@@ -648,8 +731,10 @@ impl<'a> FnTr<'a> {
                 let (sc, sty) = self.ex(&l.expr, env_t, &mut stc, None)?;
                 let p = self.pat(&l.pat, &sty, env_t)?;
                 let inner = self.if_chain_go(conj, i + 1, env_t, mk_then, else_seq)?;
+                // builder N: `none` completes `some <binding>`; a refutable inner pattern (`Ok(true)`) needs `_`
+                let binds_all = p.strip_prefix("some ").map(|r| r != "true" && r != "false" && !r.starts_with(|c: char| c.is_ascii_digit()) && r.chars().all(|c| c.is_alphanumeric() || c == '_' || c == '«' || c == '»')).unwrap_or(false);
                 let other = match &sty {
-                    Ty::Opt(_) => "none".to_string(),
+                    Ty::Opt(_) if binds_all => "none".to_string(),
                     _ => "_".to_string(),
                 };
                 Ok(Seq { stmts: stc, tail: Tail::Match(sc, vec![(p, inner), (other, else_seq.clone())]) })
@@ -749,7 +834,9 @@ impl<'a> FnTr<'a> {
             .or_else(|| if self.reg.io.borrow().mode { crate::phyio::find_trait_method(&files, tn, name) } else { None })
             .ok_or(format!("unknown method {}", key))?;
         self.reg.dyn_stack.borrow_mut().push(key.clone());
-        let lean_name = format!("{}.{}", tn, name);
+        // builder N: a getter named like the field it reads would clash with the structure projection
+        let clash = self.reg.structs.get(tn).map(|fs| fs.iter().any(|(f, _)| f == name)).unwrap_or(false);
+        let lean_name = if clash { format!("{}.{}_fn", tn, name) } else { format!("{}.{}", tn, name) };
         let mut sub = FnTr {
             reg: self.reg,
             self_ty: Some(tn.to_string()),
@@ -934,6 +1021,19 @@ impl<'a> FnTr<'a> {
         let mut params = vec![];
         self.muts = vec![];
         // builder L: `M: Trait` where the unit models `Trait` as a struct of its observable methods
+        // builder N: const generic parameters (`const D: usize`): known while the parameter types are read; one
+        // that is the capacity of a `heapless::Vec` parameter becomes a leading parameter of the Lean function
+        let mut cgen: Vec<String> = vec![];
+        for gp in &sig.generics.params {
+            if let GenericParam::Const(c) = gp {
+                if let Type::Path(tp) = &c.ty {
+                    if let Some(it) = tp.path.get_ident().and_then(|i| int_ty(&i.to_string())) {
+                        self.tparams.insert(c.ident.to_string(), Ty::Int(it));
+                        cgen.push(c.ident.to_string());
+                    }
+                }
+            }
+        }
         for gp in &sig.generics.params {
             if let GenericParam::Type(tp) = gp {
                 for b in &tp.bounds {
@@ -974,6 +1074,14 @@ impl<'a> FnTr<'a> {
                     env.insert(name.clone(), t.clone());
                     params.push((name, t));
                 }
+            }
+        }
+        for cg in cgen.iter().rev() {
+            let used = params.iter().any(|(_, t)| matches!(t, Ty::HVec(_, cap) if cap == cg));
+            if used {
+                let t = self.tparams.get(cg).cloned().unwrap();
+                env.insert(cg.clone(), t.clone());
+                params.insert(0, (cg.clone(), t));
             }
         }
         let ret = match &sig.output {
@@ -1118,6 +1226,23 @@ impl<'a> FnTr<'a> {
             self.ret = saved;
             return Ok((Seq { stmts: st, tail: Tail::Val("()".into()) }, Ty::Unit));
         }
+        // builder N: `if c { panic!(..) }` before the value: `if c then none else <rest of the block>`
+        for (i, s0) in stmts[..n - 1].iter().enumerate() {
+            if let Stmt::Expr(Expr::If(ei), _) = s0 {
+                let panics = matches!(ei.then_branch.stmts.last(), Some(Stmt::Macro(m)) if ["unreachable", "panic"].contains(&path_str(&m.mac.path).as_str()))
+                    || matches!(ei.then_branch.stmts.last(), Some(Stmt::Expr(Expr::Macro(m), _)) if ["unreachable", "panic"].contains(&path_str(&m.mac.path).as_str()));
+                if ei.else_branch.is_none() && ei.then_branch.stmts.len() == 1 && panics && !has_let(&ei.cond) {
+                    let r = (|| -> Res<(Seq, Ty)> {
+                        let mut pre = if i > 0 { self.block_tail_prefix(&stmts[..i], env)? } else { vec![] };
+                        let (c, _) = self.cond(&ei.cond, env, &mut pre)?;
+                        let (rest, ty) = self.block_val(&stmts[i + 1..], env, expect.clone())?;
+                        Ok((Seq { stmts: pre, tail: Tail::If(c, Box::new(Seq { stmts: vec![], tail: Tail::Panic }), Box::new(rest)) }, ty))
+                    })();
+                    self.ret = saved;
+                    return r;
+                }
+            }
+        }
         // all but last through block_tail-like processing: emulate by translating prefix then last expr
         let (prefix, last) = stmts.split_at(n - 1);
         let res = (|| -> Res<(Seq, Ty)> {
@@ -1153,6 +1278,16 @@ impl<'a> FnTr<'a> {
 
     /// Translate statements none of which may end the function; returns the lets.
     fn block_tail_prefix(&mut self, stmts: &[Stmt], env: &mut Env) -> Res<Stmts> {
+        // builder N: the last statement of a prefix is a statement (an `if` / `match` written without `;`
+        // is not the value of the block)
+        let mut owned: Vec<Stmt> = stmts.to_vec();
+        if let Some(Stmt::Expr(e, None)) = owned.last().cloned() {
+            if matches!(e, Expr::If(_) | Expr::Match(_) | Expr::Block(_)) {
+                let k = owned.len() - 1;
+                owned[k] = Stmt::Expr(e, Some(Default::default()));
+            }
+        }
+        let stmts = &owned[..];
         let seq = self.block_tail(stmts, env)?;
         match seq.tail {
             Tail::Val(ref v) if v == "()" => Ok(seq.stmts),
@@ -1186,13 +1321,34 @@ impl<'a> FnTr<'a> {
             Pat::Paren(pp) => self.pat(&pp.pat, ty, env),
             Pat::TupleStruct(ts) => {
                 let name = path_str(&ts.path);
-                if name == "Some" {
+                if name == "Some" || name == "Ok" {
                     let inner = match ty {
                         Ty::Opt(t) => (**t).clone(),
                         _ => return Err(format!("Some pattern on non-option {:?}", ty)),
                     };
                     let ip = self.pat(&ts.elems[0], &inner, env)?;
                     Ok(format!("some {}", paren(&ip)))
+                } else if name == "Err" && matches!(ty, Ty::Opt(_)) && matches!(ts.elems.first(), Some(Pat::Wild(_)) | Some(Pat::Ident(_))) {
+                    // (a bound error value is not put in scope: code that reads it does not translate)
+                    // builder N: `Err(_)` of a `Result` translated as an `Option` (the error value is not bound)
+                    Ok("none".into())
+                } else if ts.path.segments.len() >= 2 {
+                    // builder N: a variant with a payload of an enum the unit models (`EnumData`)
+                    let n = ts.path.segments.len();
+                    let (en, vn) = (ts.path.segments[n - 2].ident.to_string(), ts.path.segments[n - 1].ident.to_string());
+                    let en = if en == "Self" { self.self_ty.clone().unwrap_or_default() } else { en };
+                    if !matches!(ty, Ty::Named(tn) if *tn == en) {
+                        return Err(format!("pattern {} on {:?}", name, ty));
+                    }
+                    let tys = self.reg.enum_data.get(&en).and_then(|vs| vs.iter().find(|(v, _)| *v == vn)).map(|(_, t)| t.clone()).ok_or(format!("unsupported tuple-struct pattern {}", name))?;
+                    if tys.len() != ts.elems.len() {
+                        return Err(format!("pattern {}: arity", name));
+                    }
+                    let mut ps = vec![];
+                    for (e, t) in ts.elems.iter().zip(tys.iter()) {
+                        ps.push(paren(&self.pat(e, t, env)?));
+                    }
+                    Ok(format!(".{} {}", lean_ident(&vn), ps.join(" ")))
                 } else {
                     Err(format!("unsupported tuple-struct pattern {}", name))
                 }
@@ -1624,6 +1780,13 @@ impl<'a> FnTr<'a> {
                         let fty = fields.iter().find(|(n, _)| *n == fname).ok_or(format!("no field {} in {}", fname, sn))?.1.clone();
                         Ok((format!("{}.{}", paren(&b), lean_ident(&fname)), fty))
                     }
+                    (Member::Unnamed(i), Ty::Named(sn)) => {
+                        // builder N: the field of a newtype
+                        let fields = self.reg.structs.get(sn).ok_or(format!("field access on non-struct {}", sn))?;
+                        let fname = i.index.to_string();
+                        let fty = fields.iter().find(|(n, _)| *n == fname).ok_or(format!("no field {} in {}", fname, sn))?.1.clone();
+                        Ok((format!("{}.{}", paren(&b), lean_ident(&fname)), fty))
+                    }
                     (Member::Unnamed(i), Ty::Tuple(ts)) => {
                         let k = i.index as usize;
                         let n = ts.len();
@@ -1668,6 +1831,30 @@ impl<'a> FnTr<'a> {
                     }
                 }
             }
+            Expr::Struct(s) if s.path.segments.len() >= 2 && self.reg.enum_named.contains_key(&{
+                let n = s.path.segments.len();
+                format!("{}::{}", s.path.segments[n - 2].ident, s.path.segments[n - 1].ident)
+            }) => {
+                // builder N: `Enum::Variant { f: e, .. }`
+                let n = s.path.segments.len();
+                let (en, vn) = (s.path.segments[n - 2].ident.to_string(), s.path.segments[n - 1].ident.to_string());
+                let names = self.reg.enum_named.get(&format!("{}::{}", en, vn)).unwrap().clone();
+                let tys = self.reg.enum_data.get(&en).and_then(|vs| vs.iter().find(|(v, _)| *v == vn)).map(|(_, t)| t.clone()).ok_or("struct-like variant without types")?;
+                if s.rest.is_some() || s.fields.len() != names.len() {
+                    return Err(format!("{}::{}: not all fields given", en, vn));
+                }
+                let mut args = vec![String::new(); names.len()];
+                for fv in &s.fields {
+                    let fname = match &fv.member {
+                        Member::Named(i) => i.to_string(),
+                        _ => return Err("tuple member in a struct-like variant".into()),
+                    };
+                    let k = names.iter().position(|x| *x == fname).ok_or(format!("{}::{} has no field {}", en, vn, fname))?;
+                    let (a, _) = self.ex(&fv.expr, env, st, Some(tys[k].clone()))?;
+                    args[k] = paren(&a);
+                }
+                Ok((format!("({}.{} {})", en, lean_ident(&vn), args.join(" ")), Ty::Named(en)))
+            }
             Expr::Struct(s) => {
                 let name = {
                     let n = path_str(&s.path);
@@ -1680,12 +1867,21 @@ impl<'a> FnTr<'a> {
                 let fields = self.reg.structs.get(&name).ok_or(format!("unknown struct {}", name))?.clone();
                 let mut parts = vec![];
                 for fv in &s.fields {
+                    if cfg_disabled(&fv.attrs) {
+                        continue;
+                    }
                     let fname = match &fv.member {
                         Member::Named(i) => i.to_string(),
                         _ => return Err("tuple struct literal".into()),
                     };
                     let fty = fields.iter().find(|(n, _)| *n == fname).ok_or("unknown field")?.1.clone();
-                    let (a, _) = self.ex(&fv.expr, env, st, Some(fty))?;
+                    let (a, ta) = self.ex(&fv.expr, env, st, Some(fty.clone()))?;
+                    // builder N: a heapless vector stored in a field must have the field's capacity
+                    if let (Ty::HVec(_, c1), Ty::HVec(_, c2)) = (&ta, &fty) {
+                        if c1 != c2 {
+                            return Err(format!("field {}: heapless::Vec capacity {} stored in a field of capacity {}", fname, c1, c2));
+                        }
+                    }
                     parts.push(format!("{} := {}", lean_ident(&fname), a));
                 }
                 if s.rest.is_some() {
@@ -1695,6 +1891,15 @@ impl<'a> FnTr<'a> {
             }
             Expr::Call(c) => self.call(c, env, st, expect),
             Expr::MethodCall(m) => self.method(m, env, st, expect),
+            Expr::Index(ix) if matches!(&*ix.index, Expr::Range(r) if r.start.is_none() && r.end.is_none()) => {
+                // builder N: `x[..]` — the whole slice
+                let (a, ta) = self.ex(&ix.expr, env, st, expect)?;
+                match ta {
+                    Ty::Arr(_) => Ok((a, ta)),
+                    Ty::HVec(el, _) => Ok((a, Ty::Arr(el))),
+                    _ => Err("`[..]` on a non-slice".into()),
+                }
+            }
             Expr::Index(ix) => {
                 let (a, ta) = self.ex(&ix.expr, env, st, None)?;
                 let (i, _) = self.ex(&ix.index, env, st, Some(Ty::Int("usize")))?;
@@ -1731,7 +1936,7 @@ impl<'a> FnTr<'a> {
                     _ => tv,
                 };
                 let (n, _) = self.ex(&r.len, env, st, Some(Ty::Int("usize")))?;
-                Ok((format!("(List.replicate (Int.toNat {}) {})", paren(&n), paren(&v)), Ty::Arr(Box::new(tv))))
+                Ok((format!("(List.replicate (Int.toNat {}) ({} : {}))", paren(&n), v, tv.lean()), Ty::Arr(Box::new(tv))))
             }
             Expr::Macro(m) => Err(format!("unsupported macro expr {}", path_str(&m.mac.path))),
             _ => Err(format!("unsupported expression: {}", quote::quote!(#e))),
@@ -1812,6 +2017,43 @@ impl<'a> FnTr<'a> {
             let (b, tb) = self.ex(&c.args[1], env, st, Some(ta.clone()))?;
             let t = unify(&ta, &tb)?;
             return Ok((format!("({} {} {})", segs[segs.len() - 1], paren(&a), paren(&b)), t));
+        }
+        // builder N: `NonZeroU8::new(x)`: `Some(x)` iff `x != 0` (the unit aliases the type to its integer)
+        if segs.len() >= 2 && segs[segs.len() - 1] == "new" && segs[segs.len() - 2].starts_with("NonZero") && c.args.len() == 1 {
+            let it = match segs[segs.len() - 2].as_str() {
+                "NonZeroU8" => "u8",
+                "NonZeroU16" => "u16",
+                "NonZeroU32" => "u32",
+                other => return Err(format!("unsupported {}", other)),
+            };
+            let (a, _) = self.ex(&c.args[0], env, st, Some(Ty::Int(it)))?;
+            return Ok((format!("(if decide ({} ≠ 0) then some {} else none)", a, paren(&a)), Ty::Opt(Box::new(Ty::Int(it)))));
+        }
+        // builder N: `T::from(x)` for a user type with a registered `impl From<uN> for T`
+        if segs.len() >= 2 && segs[segs.len() - 1] == "from" && c.args.len() == 1 && int_ty(&segs[segs.len() - 2]).is_none() {
+            let tn = segs[segs.len() - 2].clone();
+            let cands: Vec<(String, FnSig)> = self.reg.fns.iter().filter(|(k, _)| k.ends_with(&format!("::into_{}", tn))).map(|(k, v)| (k.clone(), v.clone())).collect();
+            if cands.len() == 1 {
+                let sig = cands[0].1.clone();
+                let (a, _) = self.ex(&c.args[0], env, st, Some(sig.params[0].1.clone()))?;
+                let term = format!("{} {}", sig.lean, paren(&a));
+                return if sig.fallible { Ok((self.act(st, term), sig.ret.clone())) } else { Ok((format!("({})", term), sig.ret.clone())) };
+            }
+        }
+        // builder N: `T::default()` of a modelled struct that derives `Default`
+        if segs.len() >= 2 && segs[segs.len() - 1] == "default" && c.args.is_empty() {
+            let tn = segs[segs.len() - 2].clone();
+            if let Some(fields) = self.reg.structs.get(&tn).cloned() {
+                let files = self.reg.files.clone().ok_or("default(): no files")?;
+                if !derives_default(&files, &tn) {
+                    return Err(format!("{}::default(): the struct does not derive Default", tn));
+                }
+                let mut parts = vec![];
+                for (f, t) in &fields {
+                    parts.push(format!("{} := {}", lean_ident(f), default_term(t).ok_or(format!("{}::default(): field {} has no modelled default", tn, f))?));
+                }
+                return Ok((format!("({{ {} }} : {})", parts.join(", "), tn), Ty::Named(tn)));
+            }
         }
         // builder L: `heapless::Vec::new()`
         if segs.len() >= 2 && segs[segs.len() - 2] == "Vec" && segs[segs.len() - 1] == "new" && c.args.is_empty() {
@@ -1904,6 +2146,44 @@ impl<'a> FnTr<'a> {
                 return Ok((format!("decide ({})", parts.join(" ∧ ")), Ty::Bool));
             }
         }
+        // builder N: `(a..=b).all(|c| body)` on an integer range; the body may panic (`Rt.rangeAllM`)
+        if name == "all" && m.args.len() == 1 {
+            let mut recv = &*m.receiver;
+            while let Expr::Paren(p) = recv {
+                recv = &p.expr;
+            }
+            if let (Expr::Range(r), Expr::Closure(cl)) = (recv, &m.args[0]) {
+                if let (Some(lo), Some(hi), RangeLimits::Closed(_), 1) = (&r.start, &r.end, &r.limits, cl.inputs.len()) {
+                    let (a0, ta0) = self.ex(lo, env, st, None)?;
+                    let (b, tb) = self.ex(hi, env, st, if matches!(ta0, Ty::Int(_)) { Some(ta0.clone()) } else { None })?;
+                    let ity = match (&ta0, &tb) {
+                        (Ty::Int(_), _) => ta0.clone(),
+                        (Ty::IntLit, Ty::Int(_)) => tb.clone(),
+                        _ => return Err("range all: the bounds are not typed integers".into()),
+                    };
+                    let (a, ta) = if ta0 == Ty::IntLit { (a0, ity.clone()) } else { (a0, ta0) };
+                    unify(&ta, &tb)?;
+                    let mut env_c = env.clone();
+                    let pn = self.pat(&cl.inputs[0], &ity, &mut env_c)?;
+                    let mut cst = vec![];
+                    let (ct, cty) = self.ex(&cl.body, &mut env_c, &mut cst, Some(Ty::Bool))?;
+                    if cty != Ty::Bool {
+                        return Err("range all: closure body is not bool".into());
+                    }
+                    let seq = Seq { stmts: cst, tail: Tail::Val(ct) };
+                    let mut body = String::new();
+                    if seq.fallible() {
+                        render_m(&seq, 2, &mut body);
+                    } else {
+                        body.push_str("some (");
+                        render_p(&seq, 2, &mut body);
+                        body.push(')');
+                    }
+                    let t = self.act(st, format!("Rt.rangeAllM {} {} (fun {} => {})", paren(&a), paren(&b), pn, body));
+                    return Ok((t, Ty::Bool));
+                }
+            }
+        }
         let (r, tr) = self.ex(&m.receiver, env, st, None)?;
         match &tr {
             Ty::Int(_) | Ty::IntLit => {
@@ -1981,7 +2261,10 @@ impl<'a> FnTr<'a> {
                 }
             }
             Ty::Opt(inner) => match name.as_str() {
-                "is_some" => Ok((format!("{}.isSome", paren(&r)), Ty::Bool)),
+                "is_some" | "is_ok" => Ok((format!("{}.isSome", paren(&r)), Ty::Bool)),
+                // builder N: `Option<T>` → `Option<&T>`: the same value in the model
+                // (`ok`: `Result<T, E>` → `Option<T>`; a `Result` already is an `Option` here)
+                "as_ref" | "as_mut" | "copied" | "cloned" | "ok" => Ok((r, tr.clone())),
                 "is_none" => Ok((format!("{}.isNone", paren(&r)), Ty::Bool)),
                 "unwrap_or" => {
                     let (a, _) = self.ex(&m.args[0], env, st, Some((**inner).clone()))?;
@@ -2066,6 +2349,7 @@ impl<'a> FnTr<'a> {
             }
             // slices / arrays (builder B): `.len()`, `.iter()` (identity), `.find(|e| pure-bool)`
             Ty::Arr(el) => match name.as_str() {
+                "is_empty" => Ok((format!("{}.isEmpty", paren(&r)), Ty::Bool)),
                 "len" => Ok((format!("(Int.ofNat {}.length)", paren(&r)), Ty::Int("usize"))),
                 "iter" => Ok((r, tr.clone())),
                 "find" => {
@@ -2128,6 +2412,9 @@ fn unify(a: &Ty, b: &Ty) -> Res<Ty> {
         (Ty::Opt(x), Ty::Opt(y)) => Ok(Ty::Opt(Box::new(unify(x, y)?))),
         (Ty::Tuple(xs), Ty::Tuple(ys)) if xs.len() == ys.len() => Ok(Ty::Tuple(xs.iter().zip(ys.iter()).map(|(x, y)| unify(x, y)).collect::<Res<Vec<_>>>()?)),
         _ if a == b => Ok(a.clone()),
+        // builder N: element-wise (an empty slice literal has no element type of its own)
+        (Ty::Arr(x), Ty::Arr(y)) => Ok(Ty::Arr(Box::new(unify(x, y)?))),
+        (Ty::Tuple(xs), Ty::Tuple(ys)) if xs.len() == ys.len() => Ok(Ty::Tuple(xs.iter().zip(ys.iter()).map(|(x, y)| unify(x, y)).collect::<Res<Vec<_>>>()?)),
         _ => Err(format!("type mismatch {:?} vs {:?}", a, b)),
     }
 }
@@ -2208,6 +2495,12 @@ fn contains_return(e: &Expr) -> bool {
             self.0 = true;
         }
         fn visit_item_fn(&mut self, _: &'ast ItemFn) {}
+        // builder N: statements of features the harness does not build with are not there
+        fn visit_stmt(&mut self, s: &'ast Stmt) {
+            if !stmt_cfg_disabled(s) {
+                syn::visit::visit_stmt(self, s);
+            }
+        }
     }
     let mut v = V(false);
     syn::visit::visit_expr(&mut v, e);
@@ -2407,6 +2700,41 @@ fn assigned_roots(e: &Expr, muts: &[String]) -> Vec<String> {
     let mut v = V { muts, out: vec![] };
     syn::visit::visit_expr(&mut v, e);
     v.out
+}
+
+/// builder N: does the struct `tn` of the unit's files carry `#[derive(.. Default ..)]`?
+fn derives_default(files: &[File], tn: &str) -> bool {
+    use quote::ToTokens;
+    fn walk(items: &[Item], tn: &str) -> bool {
+        for it in items {
+            match it {
+                Item::Struct(s) if s.ident == tn => {
+                    return s.attrs.iter().any(|a| a.path().is_ident("derive") && a.meta.to_token_stream().to_string().split(|c: char| !c.is_alphanumeric()).any(|w| w == "Default"));
+                }
+                Item::Mod(m) => {
+                    if let Some((_, items)) = &m.content {
+                        if walk(items, tn) {
+                            return true;
+                        }
+                    }
+                }
+                _ => {}
+            }
+        }
+        false
+    }
+    files.iter().any(|f| walk(&f.items, tn))
+}
+
+/// builder N: `Default::default()` of a modelled type
+fn default_term(t: &Ty) -> Option<String> {
+    Some(match t {
+        Ty::Int(_) | Ty::IntLit => "0".to_string(),
+        Ty::Bool => "false".to_string(),
+        Ty::Opt(_) => "none".to_string(),
+        Ty::HVec(..) => "[]".to_string(),
+        _ => return None,
+    })
 }
 
 /// items of cargo features the verification harness does not enable
